@@ -1,2 +1,5 @@
+pub mod expl;
 pub mod features;
+pub mod iter;
+pub mod opt;
 pub mod solve;
